@@ -2,6 +2,7 @@ import YaegiVerif.Common.Sexp
 import YaegiVerif.Model.Method
 import YaegiVerif.Model.MethodRun
 import YaegiVerif.Model.MethodClass
+import YaegiVerif.Model.MethodHost
 import YaegiVerif.Spec.GoSelector
 import YaegiVerif.Generated.C05
 /- Line-protocol front end for C05 (glue, not a proof obligation).
@@ -16,7 +17,9 @@ import YaegiVerif.Generated.C05
    mset TYPES type
      answer: y=names gv=names gp=names        (methods(); method set of T; method set of *T)
    impl TYPES type 0|1(pointer) iface
-     answer: y=0|1 g=0|1 -/
+     answer: y=0|1 g=0|1
+   probe TYPES type 0|1(pointer) base (method …) (method …)
+     answer: y=0|1 g=0|1 w=names   (host-side probe of an optional interface; w: methods of the wrapper chosen) -/
 namespace YaegiVerif.Driver.C05
 open YaegiVerif YaegiVerif.Method YaegiVerif.MethodRun YaegiVerif.Spec.Selector
 
@@ -154,6 +157,13 @@ def handle (args : List Sexp) : String :=
      | some D, some tt, some pp, some ii =>
        s!"y={b01 (implementsY F D tt pp (ifaceMethodsY D ii))} g={b01 (implements D ⟨tt, pp⟩ (ifaceMethods D ii))}"
      | _, _, _, _ => "bad-op")
+  | [.atom "probe", ts, t, p, .atom base, .list im, .list jm] =>
+    (match parseDecls ts, t.nat?, p.bool? with
+     | some D, some tt, some pp =>
+       let names (l : List Sexp) : List String := l.filterMap (fun x => match x with | .atom a => some a | _ => none)
+       let C := Generated.C05.composedWrappers
+       s!"y={b01 (MethodHost.hostProbeY F C D tt base (names im) (names jm))} g={b01 (MethodHost.hostProbeG D ⟨tt, pp⟩ (names jm))} w={showNames (MethodHost.chooseWrapperY F C D tt base (names im))}"
+     | _, _, _ => "bad-op")
   | _ => "bad-op"
 
 end YaegiVerif.Driver.C05
